@@ -8,6 +8,9 @@ import vcheck
 log = open(os.path.join(vcheck.WORK, 'cov_baseline.log'), 'w')
 files = sorted(os.path.basename(f) for f in glob.glob(os.path.join(vcheck.REPO, '*.go')) if not f.endswith('_test.go') and 'verif_hooks' not in f)
 blocks, n = vcheck.unexercised_blocks('C01', ['mod10 1'], log, all_blocks=True, files=files)
+rblocks, rn = vcheck.unexercised_rest_blocks(['rreq k GET x2f x O:'], log, all_blocks=True)
+blocks += rblocks or []
+n += rn
 with open(os.path.join(vcheck.ROOT, 'coverage_baseline', 'all_blocks.txt'), 'w') as f:
     for key in sorted(set(k for _, k in blocks if k)):
         f.write(key + '\n')
